@@ -66,7 +66,7 @@ def main(ctx):
         ctx.notes.append("unsafe-site scan: rten-tensor/src/tensor.rs not readable")
     failed = ctx.prove(GROUP, "Props_C06", THEOREMS) if THEOREMS else []
     agree = "agree_old" if os.environ.get("VERIF_C06_OLD") == "1" else "agree"
-    n = ctx.n(600, 4000)
+    n = ctx.n(450, 4000)
     for profile in ("release", "debug"):
         bindir = ctx.harness(GROUP, profile=profile, bins=["c06"])
         rc, mode = ctx.run_bin(os.path.join(bindir, "c06"), ["mode"])
